@@ -41,6 +41,15 @@ def run(ctx):
     ]
     ctx.section(c02._align_emit, ctx.view(lambda w: True, rule="C04.align"), index)
     ctx.section(c02._exacttype, ctx, index, "C04.exacttype")
+    from . import c10
+
+    ctx.section(
+        c10.state_slice,
+        ctx,
+        "C04.state",
+        ["cdd.class_.emit.class_", "cdd.function.emit.function", "cdd.argparse_function.emit.argparse_function"],
+    )
+    ctx.section(c02._escape, ctx, index)
     ctx.section(_nodefault, ctx, index, env)
     ctx.section(_classdefault, ctx, index, env)
     ctx.section(_required, ctx, index)
